@@ -19,7 +19,7 @@ TECH = {
  'C06': 'static analysis: write-set (effect) analysis over the CHA call graph versus the reset closure; CFG dominance of the reset guard',
  'C07': 'static analysis: effect analysis (writes to static storage and to shared classes) over the CHA call graph with cut sets',
  'C08': 'static analysis: template-argument comparison of serializer instantiations, who-may-call, HTML element table lint, bounded interpretation of the indenting serializer\'s event handlers over all event sequences (abstract output tokens), of the HTML serializer likewise, and of the text formatter on all short strings',
- 'C09': 'static analysis: pattern op-code producers versus stepPattern/getTargetData switch labels; single NodeTester rule; CFG loop-exit rule for the ancestor search; type-split rule for number-valued predicates on both sides; step-type value sets reaching the node tester; kind guards of pattern steps',
+ 'C09': 'static analysis: pattern op-code producers versus stepPattern/getTargetData switch labels; single NodeTester rule; CFG loop-exit rule for the ancestor search; type-split rule for number-valued predicates on both sides; step-type value sets reaching the node tester; kind guards of pattern steps; interpretation of the pattern parser on bounded token sequences against a reference recognizer for the XSLT 1.0 pattern grammar',
  'C10': 'static analysis: exhaustive switch evaluation of match-score constants; finite-domain interpretation of getTargetData and of the lookup-list builders on all small inputs; structural agreement of the two findTemplate branches; interpretation of the construction of the built-in rules over an object model of stylesheet elements',
  'C11': 'static analysis: sibling dispatch agreement across the six executeMore switches (labels, kernels, canonical conversions); append protocol of the string-result overloads; wrapper rule for the typed helper families; body equality modulo the sink for the 50 string / character-events overload pairs of the conversion library',
  'C12': 'static analysis: CFG must-pass-through of the order flag in axis functions; who-may-call for raw addNode; dominating-justification rule for whole-range transfers in the ordered merge; interpretation of the ordered insert (binary and linear search, predicates) on all bounded insertion sequences over two documents',
